@@ -56,6 +56,8 @@ type World struct {
 	Admin Acct
 	User  Acct
 	Ops   []Op // sorted by address bytes: op id == rank
+
+	accNums map[string]uint64 // account numbers assigned at genesis (see genesisAccNum)
 }
 
 func mkAcct(secret string) Acct {
